@@ -34,7 +34,7 @@ fn feasibility() {
 
 fn table() {
     let t = |n: &str, c: bool, s: bool, e: Expect| if expect(n, c, s) != e { die(&format!("expectation table: {n} ({c},{s}) should be {e:?}")); };
-    t("META-INF/MOJANGCS.SF", true, false, Expect::Absent); t("META-INF/MOJANGCS.RSA", true, true, Expect::Absent); t("META-INF/X.DSA", false, true, Expect::Absent); t("META-INF/X.EC", true, true, Expect::Absent);
+    t("META-INF/MOJANGCS.SF", true, false, Expect::Absent); t("META-INF/MOJANGCS.RSA", true, true, Expect::Absent); t("META-INF/X.DSA", false, true, Expect::Open); t("META-INF/X.EC", true, true, Expect::Open);
     t("META-INF/sub/X.SF", true, true, Expect::Open); t("META-INF/x.sf", true, true, Expect::Open); t("META-INF/SIG-A", true, true, Expect::Open);
     t("data/keys.SF", true, true, Expect::Present); t("META-INF/MANIFEST.MF", false, true, Expect::Present); t("META-INF/services/a.B", false, true, Expect::Present);
     t("com/google/A.class", false, true, Expect::Absent); t("com/google/A.class", true, true, Expect::Present); t("com/google/A.class", true, false, Expect::Present);
